@@ -65,6 +65,8 @@ std::string RunCfg::brief() const {
            (unsigned long long)sched.seed, sched.param, sched.spurious, sched.preempt, sched.devs.size(), in_kind, in_frag.mode, out_kind, out_frag.mode);
   r += b;
   if (operand2) r += " | data as second FILE operand";
+  if (nofile != 1024) { snprintf(b, sizeof b, " | nofile=%d", nofile); r += b; }
+  if (inherit_mask) { snprintf(b, sizeof b, " | inherited blocked signals=0x%llx", (unsigned long long)inherit_mask); r += b; }
   if (sched.stall_k) { snprintf(b, sizeof b, " | stall %s#%u for %u decisions", sched.stall_task.c_str(), sched.stall_k, sched.stall_len); r += b; }
   if (in_granul || out_granul || copy_granul) { snprintf(b, sizeof b, " | granul in=%zu out=%zu copy=%zu", in_granul, out_granul, copy_granul); r += b; }
   for (auto &f : faults) { snprintf(b, sizeof b, " | fault %s#%d role%d errno=%d partial=%lld", sim::call_name(f.call), f.k, f.role, f.err, (long long)f.partial); r += b; }
@@ -111,6 +113,7 @@ sim::Result exec(const RunCfg &cfg0, const Bytes &stdin_data0, const std::vector
   sim::Plan p;
   p.argv.push_back(cfg.prog);
   for (auto &a : cfg.argv) p.argv.push_back(a);
+  p.nofile = cfg.nofile; p.inherit_mask = cfg.inherit_mask;
   p.env = cfg.env; p.ncpu = cfg.ncpu; p.ign_pipe = cfg.ign_pipe; p.ign_xfsz = cfg.ign_xfsz;
   p.in_granul = cfg.in_granul; p.out_granul = cfg.out_granul; p.copy_granul = cfg.copy_granul;
   p.world = make_world(files);
@@ -280,6 +283,7 @@ std::string case_to_text(const Case &c, const Verdict &v, uint64_t hash) {
     for (auto &f : r.faults) o << " fault " << f.call << " " << f.role << " " << f.k << " " << f.err << " " << f.partial << "\n";
     for (auto &e : r.sigs) o << " sig " << e.step << " " << e.sig << "\n";
     if (r.operand2) o << " operand2 1\n";
+    if (r.nofile != 1024 || r.inherit_mask) o << " procenv " << r.nofile << " " << r.inherit_mask << "\n";
     if (r.sched.stall_k) o << " stall " << r.sched.stall_task << " " << r.sched.stall_k << " " << r.sched.stall_len << "\n";
     o << " sched " << r.sched.policy << " " << r.sched.seed << " " << r.sched.param << " " << r.sched.spurious << " " << (int)r.sched.explicit_ << " " << r.sched.preempt << "\n";
     if (!r.sched.devs.empty()) { o << " devs"; for (auto &d : r.sched.devs) o << " " << d.first << ":" << d.second; o << "\n"; }
@@ -325,6 +329,7 @@ bool case_from_text(const std::string &text, Case *c, Verdict *v, uint64_t *hash
       else if (k == "filefrag") is >> cur->file_frag.mode >> cur->file_frag.param;
       else if (k == "fault") { sim::Fault f; is >> f.call >> f.role >> f.k >> f.err >> f.partial; cur->faults.push_back(f); }
       else if (k == "sig") { sim::SigEvent e; is >> e.step >> e.sig; cur->sigs.push_back(e); }
+      else if (k == "procenv") is >> cur->nofile >> cur->inherit_mask;
       else if (k == "operand2") { int v = 0; is >> v; cur->operand2 = v != 0; }
       else if (k == "stall") is >> cur->sched.stall_task >> cur->sched.stall_k >> cur->sched.stall_len;
       else if (k == "sched") { int ex; is >> cur->sched.policy >> cur->sched.seed >> cur->sched.param >> cur->sched.spurious >> ex; cur->sched.explicit_ = ex; uint32_t pr = 0; if (is >> pr) cur->sched.preempt = pr; }
@@ -373,6 +378,8 @@ Case shrink(const Driver &d, const Case &c0, const Verdict &v0, int max_evals, i
     for (size_t k = best.runs[r].faults.size(); k-- > 0;) { Case cand = best; cand.runs[r].faults.erase(cand.runs[r].faults.begin() + k); try_case(cand); }
     for (size_t k = best.runs[r].sigs.size(); k-- > 0;) { Case cand = best; cand.runs[r].sigs.erase(cand.runs[r].sigs.begin() + k); try_case(cand); }
     if (best.runs[r].sched.spurious) { Case cand = best; cand.runs[r].sched.spurious = 0; if (cand.runs[r].sched.explicit_) cand.runs[r].sched.devs.clear(); try_case(cand); }
+    if (best.runs[r].inherit_mask) { Case cand = best; cand.runs[r].inherit_mask = 0; try_case(cand); }
+    if (best.runs[r].nofile != 1024) { Case cand = best; cand.runs[r].nofile = 1024; try_case(cand); }
     if (best.runs[r].operand2) { Case cand = best; cand.runs[r].operand2 = false; try_case(cand); }
     if (best.runs[r].sched.stall_k && !best.runs[r].sched.explicit_) { Case cand = best; cand.runs[r].sched.stall_k = 0; try_case(cand); }
     if (best.runs[r].sched.preempt && !best.runs[r].sched.explicit_) { Case cand = best; cand.runs[r].sched.preempt = 0; try_case(cand); }
